@@ -98,7 +98,7 @@ def check(ctx):
     ok = ok and len(rets) == 1 and unparse(rets[0].value) == "term" and len(find("term = M_v", rw, nested=False)) == 1
     ctx.ob("MPT.top-level", rw, "first match is applied (then break); no match -> term unchanged", ok)
     tl = mod.func("_top_level")
-    ok = any(Pat("net._rewrite(term)").match(r.value) is not None for r in returns(tl))
+    ok = (all(Pat("net._rewrite(term)").match(r.value) is not None for r in returns(tl)) and bool(returns(tl)))
     st = mod.toplevel_assign("strategies")
     ok = ok and isinstance(st, ast.Dict) and {const(k): unparse(v) for k, v in zip(st.keys, st.values)} == {"top_level": "_top_level", "bottom_up": "_bottom_up"}
     ctx.ob("MPT.strategies", tl, "strategy table: top_level -> _top_level, bottom_up -> _bottom_up", ok)
